@@ -127,11 +127,14 @@ _poll_and_add_to_jobs_(struct qb_loop_source *src, int32_t ms_timeout)
 	}
 	qb_poll_fds_usage_check_(s);
 
-retry_poll:
-
 	event_count = kevent(s->epollfd, NULL, 0, events, MAX_EVENTS, timeout_pt);
 	if (errno == EINTR && event_count == -1) {
-		goto retry_poll;
+		/*
+		 * Part of the timeout has gone by: waiting for all of it
+		 * again would delay the timer it was computed for.  Let the
+		 * main loop work out how long to wait now.
+		 */
+		return 0;
 	} else if (event_count == -1) {
 		qb_util_perror(LOG_ERR, "kevent(poll)");
 		return -errno;
